@@ -506,6 +506,7 @@ def field_patterns(fd, rng, n_random):
 @register
 class C08(Prop):
     id = "C08"
+    nostd = True          # also run on the library built without its `std` feature
     module = "C08"
     theorems = ["C08_rows_ok", "C08_layout_fields_ok", "C08_carrier_roundtrip", "C08_field", "C08_absent", "C08_value_roundtrip", "C08_bias_0_01", "C08_bias_0_02"]
     table_obligations = []
@@ -583,6 +584,7 @@ class C08(Prop):
 @register
 class C11(Prop):
     id = "C11"
+    nostd = True          # also run on the library built without its `std` feature
     module = "C11"
     theorems = ["C11_rows_ok", "C11_nearest_f32", "C11_monotone_f32", "C11_nearest_f64", "C11_monotone_f64",
                 "C11_bias_rows_ok", "C11_bias_nearest_0_01", "C11_bias_nearest_0_02", "C11_bias_monotone_0_01", "C11_bias_monotone_0_02"]
@@ -1571,6 +1573,7 @@ class C09(Prop):
 @register
 class C01(Prop):
     id = "C01"
+    nostd = True          # also run on the library built without its `std` feature
     module = "C01"
     theorems = ["C01_plain_count", "C01_decode_local", "C01_decoded_fixed_point", "C01_counts_ok", "C01_accepted_decodes", "C01_layouts_fit", "C01_numbers_fit", "C01_build_decodes"]
     partial_note = ("partial: for the 55 plain layouts (fields, structs, the three list forms, descriptor strings) it is proved that every body the encoder accepts decodes (never an error), with the same shape (list lengths and order), "
